@@ -427,8 +427,8 @@ def strip_generics(name):
     i = 0
     n = len(name)
     while i < n:
-        if name.startswith("::<", i) and not name.startswith("::<impl ", i):
-            # turbofish: skip balanced <...>
+        if name.startswith("::<", i):
+            # find the matching '>'
             j = i + 3
             depth = 1
             while j < n and depth:
@@ -438,6 +438,20 @@ def strip_generics(name):
                 elif c == ">" and name[j - 1] != "-":
                     depth -= 1
                 j += 1
+            inner = name[i + 3:j - 1]
+            # qualified-self segments stay: `<impl ...>` and `<Type as Trait>`
+            d = 0
+            has_as = False
+            for k, ch in enumerate(inner):
+                if ch == "<":
+                    d += 1
+                elif ch == ">" and inner[k - 1] != "-":
+                    d -= 1
+                elif d == 0 and inner.startswith(" as ", k):
+                    has_as = True
+                    break
+            if inner.startswith("impl ") or has_as:
+                out.append(name[i:j])
             i = j
             continue
         out.append(name[i])
